@@ -411,7 +411,24 @@ def pf_caps_ts(D, T=3, wacc=False):
     return Shape(pf, tg, prices)
 
 
-PORTFOLIOS = dict(names=pf_names, caps_ts=pf_caps_ts, windows=pf_windows, contract_storage=pf_contract_storage, two_node=pf_two_node, multicommodity=pf_multicommodity,
+def pf_uncoupled(D, T=4, freq='h', unit='h', wacc=False, orderbook=None, take=None, shift_hours=0):
+    """nothing couples time steps: markets on A and B, transport, multi-commodity contract (optional order book / take period)"""
+    eao = lift.import_eao()
+    tg = grid(T, freq, unit, start=T0 + dt.timedelta(hours=shift_hours))
+    nA, nB = nodes('A', 'B')
+    w = D('wacc', lo=0) if wacc else 0
+    assets = [mk_market(D, 'mA', nA, T, 'p', ec=True, wacc=w), mk_transport(D, 'tr', nA, nB, eff=0.5, wacc=w),
+              eao.assets.MultiCommodityContract(name='mc', nodes=[nA, nB], price='r', min_cap=D('mc_min', hi=0), max_cap=D('mc_max', lo=0),
+                                                factors_commodities=[1.0, 0.5], wacc=w,
+                                                **({} if take is None else dict(max_take=mk_take(tg, take[0], take[1], D('mc_maxtake', lo=0))))),
+              mk_market(D, 'mB', nB, T, 'q', wacc=w)]
+    if orderbook is not None:
+        assets.append(mk_orderbook(D, 'ob', nA, tg, orderbook, wacc=w))
+    pf = eao.portfolio.Portfolio(assets)
+    return Shape(pf, tg, prices_for(D, ['p', 'q', 'r'], T))
+
+
+PORTFOLIOS = dict(names=pf_names, uncoupled=pf_uncoupled, caps_ts=pf_caps_ts, windows=pf_windows, contract_storage=pf_contract_storage, two_node=pf_two_node, multicommodity=pf_multicommodity,
                   contract_take=pf_contract_take, plant=pf_plant, coarse=pf_coarse, periodic=pf_periodic,
                   orderbook=pf_orderbook, scaled=pf_scaled, structured=pf_structured, ext_transport=pf_ext_transport)
 
